@@ -206,7 +206,7 @@ R('odak.learn.tools.rotate_points', lambda g: A(g.t(g.i(1, 5), 3), **g.opt(angle
 R('odak.learn.tools.tilt_towards', lambda g: A(g.lst(3), g.lst(3, 2, 3)))
 R('odak.learn.tools.same_side', lambda g: A(g.t(3), g.t(3), g.t(3), g.t(3)))
 R('odak.learn.tools.distance_between_two_points', lambda g: A(g.t(3), g.t(3)))
-R('odak.learn.tools.quantize', lambda g: A(g.t(6, 6, lo=0, hi=1), **g.opt(bits=g.i(2, 8), limits=[0., 1.])))
+R('odak.learn.tools.quantize', lambda g: A(g.t(6, 6, lo=0, hi=1), **g.opt(bits=g.i(2, 8), limits=[g.u(-1, -0.1), g.u(1.1, 2)])))
 R('odak.learn.tools.zero_pad', lambda g: A(g.t(g.i(5, 8), g.i(5, 8)), **g.opt(size=[12, 13])))
 R('odak.learn.tools.crop_center', lambda g: A(g.t(2 * g.i(3, 5), 2 * g.i(3, 5)), **g.opt(size=[4, 4])))
 R('odak.learn.tools.convolve2d', lambda g: A(g.t(8, 8), g.t(8, 8)))
